@@ -1,5 +1,6 @@
 import GoawkModel.Basic
 import GoawkModel.C16
+import GoawkModel.C16Locals
 /-! Line-protocol handler for property C16 (and, through `GoawkModel.Drv.C19`, C19).
 
 request : `resolve <order> S <name>* B <name>* (F <name> P <param>* E <event>*)* M <event>*`
@@ -7,7 +8,12 @@ request : `resolve <order> S <name>* B <name>* (F <name> P <param>* E <event>*)*
   `<event>` : `r:<v>:<u|s|a>` | `c:<f>:<nargs>` | `x:<f>:<i>` | `v:<f>:<i>:<v>`
 answer  : `ok G <n>:<t>:<idx>* (F <fname> <n>:<t>:<idx>*)*`   (functions by name, variables by name — what DebugTypes prints)
           `err <fn> <eventIndex> <kind> …`  with kind `useAs <cur> <v> <want>` | `exprAsArray <f> <i>` | `passAs <cur> <v> <want>` | `tooMany`
-`order …` with the same program syntax answers the model's function order. -/
+`order …` with the same program syntax answers the model's function order.
+
+request : `locals <fuel> <nGlobals> (F <nArr> <stmt>*)* (P <stmt>*)*`   (`GoawkModel.C16.Locals`: functions by number, then the top-level
+  pieces in execution order);  `<stmt>` : `f:<slot>:<key>` | `c:<fn>` | `l:<n|r|x|t|T|e>` (normal, return, exit, next, nextfile, error)
+answer  : `ok <entries> <outs> <table>` — entries: per function entry the sizes of its local arrays (`,`-joined, `-` = none), `;`-joined;
+  outs: one letter per piece; table: sizes of the maps left in the table, `,`-joined -/
 namespace GoawkModel.Drv.C16
 open GoawkModel GoawkModel.C16
 
@@ -92,8 +98,63 @@ def showErr : LErr → String
   | (fn, i, .passAs c v w) => s!"err {fn} {i} passAs {tyStr c} {v} {tyStr w}"
   | (fn, i, .tooMany) => s!"err {fn} {i} tooMany"
 
+namespace LocalsDrv
+open GoawkModel.C16.Locals
+
+def outOf : String → Option Out
+  | "n" => some .normal | "r" => some .ret | "x" => some .exit | "t" => some .next | "T" => some .nextfile | "e" => some .err
+  | _ => none
+
+def outStr : Out → String
+  | .normal => "n" | .ret => "r" | .exit => "x" | .next => "t" | .nextfile => "T" | .err => "e"
+
+def parseStmt (w : String) : Option Stmt :=
+  match w.splitOn ":" with
+  | ["f", a, b] => do some (.fill (← a.toNat?) (← b.toNat?))
+  | ["c", f] => do some (.call (← f.toNat?))
+  | ["l", o] => do some (.leave (← outOf o))
+  | _ => none
+
+structure P where
+  fns : List Fn := []
+  pieces : List (List Stmt) := []
+  mode : String := ""
+  bad : Bool := false
+
+def feed (st : P) (w : String) : P :=
+  if w == "F" then { st with mode := "F" }
+  else if w == "P" then { st with mode := "P", pieces := st.pieces ++ [[]] }
+  else match st.mode with
+    | "F" => match w.toNat? with
+      | some n => { st with fns := st.fns ++ [⟨n, []⟩], mode := "B" }
+      | none => { st with bad := true }
+    | "B" => match parseStmt w, st.fns.reverse with
+      | some x, f :: fs => { st with fns := (({ f with body := f.body ++ [x] } : Fn) :: fs).reverse }
+      | _, _ => { st with bad := true }
+    | "P" => match parseStmt w, st.pieces.reverse with
+      | some x, ph :: phs => { st with pieces := ((ph ++ [x]) :: phs).reverse }
+      | _, _ => { st with bad := true }
+    | _ => { st with bad := true }
+
+def sizes (l : List Nat) : String := if l.isEmpty then "-" else String.intercalate "," (l.map toString)
+
+def handle (fuel nGlob : Nat) (ws : List String) : String :=
+  let st := ws.foldl feed {}
+  if st.bad then "bad-locals" else
+  let r := phases st.fns fuel nGlob st.pieces ⟨List.replicate nGlob [], []⟩
+  let es := if r.1.entries.isEmpty then "-" else String.intercalate ";" (r.1.entries.map sizes)
+  let os := if r.2.isEmpty then "-" else String.join (r.2.map outStr)
+  s!"ok {es} {os} {sizes (r.1.tab.map List.length)}"
+
+end LocalsDrv
+
 def handle (args : List String) : String :=
   match args with
+  | "locals" :: fuel :: ng :: rest =>
+    match fuel.toNat?, ng.toNat? with
+    | some f, some n => LocalsDrv.handle f n rest
+    | _, _ => "bad-request"
+
   | "resolve" :: spec :: rest =>
     match parseProgram rest with
     | none => "bad-program"
